@@ -127,8 +127,32 @@ def restore(pid):
         same_obj = new.get('self.v').loc == old.get('self.v').loc
         return z3.And(z3.BoolVal(same_obj), z3.ForAll([k], z3.Implies(z3.And(k >= 0, k < N), v.vals[k] == vin.vals[k])))
     return Contract(FP, 'NumParam.restore', pid=pid, params={'self': TObj()},
-                    schema={'self.vin': TArr(n=N), 'self.v': TArr(n=N)}, requires=[('N>=0', lambda v: N >= 0)],
+                    schema={'self.vin': TArr(n=N), 'self.v': TArr(n=N), 'self.pu_coeff': TArr(n=N)}, requires=[('N>=0', lambda v: N >= 0)],
                     ensures=[('v=vin,written-in-place', post)], modifies=['self.v'])
+
+
+def replay_restore(obligation=None, model=None, meta=None):
+    """native run of the real NumParam.restore on parameters whose v was changed after the conversion (Model.set semantics): unit and
+    non-unit coefficients, one and several devices"""
+    import numpy as np
+    from andes.core.param import NumParam
+    n = 0
+    for coeff in ([1.0], [1.0, 1.0, 1.0], [9.0, 1.0], [0.5, 2.0, 4.0]):
+        n += 1
+        p = NumParam(default=1.0)
+        p.name, p.owner = 'p', None
+        k = len(coeff)
+        p.vin = np.arange(1.0, k + 1.0)
+        p.pu_coeff = np.array(coeff)
+        p.v = p.vin * p.pu_coeff
+        p.v[0] = 0.97                      # a temporary value written by Model.set
+        ident = id(p.v)
+        p.restore()
+        if id(p.v) != ident or not np.array_equal(p.v, p.vin):
+            return {'confirmed': True, 'inputs': {'vin': p.vin.tolist(), 'pu_coeff': coeff, 'v before restore': [0.97] + (np.arange(1.0, k + 1.0) * np.array(coeff))[1:].tolist()},
+                    'observed': 'after restore() v = %r (same array object: %r), expected the input values %r' % (p.v.tolist(), id(p.v) == ident, p.vin.tolist()),
+                    'native_cmd': 'NumParam.restore() on a parameter with the listed arrays'}
+    return {'confirmed': False, 'tried': n}
 
 
 UIDF = z3.Function('uid_of_idx', K, I)
